@@ -188,3 +188,14 @@ theorem C02_model_is_source (m : Nat) (fsOrder : List Int → List Int) (inp : I
 example : Extracted.DistLoops.distributePowerTop fullBatteryCharged.exp id (fullBatteryCharged.groups.length + 1)
       fullBatteryCharged.power (fullBatteryCharged.groups.map DistTie.compOf) =
     (distribute fullBatteryCharged).map DistTie.resultOf := by decide +kernel
+
+/-! ### The manager between two requests -/
+
+/-- `BatteryManager` keeps no state of its own from one request to the next: no method reachable from
+`BatteryManager.distribute_power` assigns to, stores into or calls a mutating container method on an attribute of `self`
+(`Extracted.Dist.managerRequestWrites`, regenerated from `_battery_manager.py` on every run, is empty).  The component data
+of a request comes from the latest-value caches (fed by the data streams, not by requests), the health from the status
+tracker (C15/C16) and the algorithm object is history-free (`C02_history_free`) — so every request is distributed from the
+LATEST component data.  A memo attribute written on the request path makes this false.  The harness drives sequences of
+requests through one real manager with the component data changing in between (`mgrseq:*` tags). -/
+theorem C02_manager_request_free : Extracted.Dist.managerRequestWrites = [] := by decide
